@@ -17,8 +17,10 @@ use vp_core::{Ctx, Json, json};
 
 use crate::util::{self, Shard};
 
-pub const ALPHABET: [&str; 14] =
-    ["a", "A", " ", "\t", "\0", "é", "e\u{301}", "Å", "ﬁ", "İ", "ß", "ǆ", "中", "😀"];
+// U+0323 (dot below, combining class 220) after U+0301 (acute, class 230) is a pair of
+// combining marks in non-canonical order
+pub const ALPHABET: [&str; 16] =
+    ["a", "A", " ", "\t", "\0", "é", "e\u{301}", "Å", "ﬁ", "İ", "ß", "ǆ", "中", "😀", "\u{323}", "\u{301}"];
 
 const BASE: [&str; 14] = [
     "bert(lowercase=false,strip_accents=false)",
